@@ -197,6 +197,16 @@ func TestC18(t *testing.T) {
 					resetAt = len(hist)
 				case 4:
 					updated = true
+					// the minimum only ever moves down: an Update goes through Add, so the value never exceeds a sample seen since reset
+					if kind == 1 && len(since) > 0 {
+						lo := math.Inf(1)
+						for _, s := range since {
+							lo = math.Min(lo, s)
+						}
+						if after > lo {
+							fail("above-samples", fmt.Sprintf("after Update the minimum reads %v, above the smallest sample %v added since reset", after, lo))
+						}
+					}
 				}
 			}
 			// reset twin: after Reset the instance must behave exactly like a new one
@@ -252,13 +262,29 @@ func TestC18(t *testing.T) {
 				tr.Case(18, 7)
 			}
 			var last []int64
-			for _, i := range order {
+			// immutability: every window value handed out earlier keeps what it summarised (callers retain them as snapshots)
+			type snap struct {
+				w   *measurements.ImmutableSampleWindow
+				obs string
+			}
+			look := func(w *measurements.ImmutableSampleWindow) string {
+				return fmt.Sprint(w.StartTimeNanoseconds(), w.CandidateRTTNanoseconds(), w.AverageRTTNanoseconds(), w.MaxInFlight(), w.SampleCount(), w.DidDrop())
+			}
+			snaps := []snap{{w, look(w)}}
+			for k, i := range order {
 				s := ss[i]
 				if s.drop {
-					w = w.AddDroppedSample(-1, int(s.inf))
+					w = w.AddDroppedSample(int64(1000+k), int(s.inf))
 				} else {
-					w = w.AddSample(-1, s.rtt, int(s.inf))
+					w = w.AddSample(int64(1000+k), s.rtt, int(s.inf))
 				}
+				for _, sn := range snaps {
+					if now := look(sn.w); now != sn.obs {
+						rep.Violate("window:mutated-in-place", fmt.Sprintf("a window that summarised %s reads %s after a later Add on it", sn.obs, now),
+							map[string]interface{}{"component": "window", "samples": fmt.Sprint(ss), "order": order})
+					}
+				}
+				snaps = append(snaps, snap{w, look(w)})
 				last = []int64{w.CandidateRTTNanoseconds(), w.AverageRTTNanoseconds(), int64(w.MaxInFlight()), int64(w.SampleCount()), B(w.DidDrop())}
 				if emit {
 					if s.drop {
